@@ -44,7 +44,7 @@ class C15(Check):
                    'shutdown order is required for every configured attachment between existing modules, whether or '
                    'not it was used before']
     PROBES = ('c15.attachment-edge', 'c15.cyclic', 'c15.missing-target', 'c15.wrong-type', 'c15.pinata', 'c15.shared-io',
-              'c15.failing-init', 'c15.hanging-first-poll', 'c15.configured-write', 'c15.shutdown-during-read', 'c15.restart', 'c15.attached-to-dynamic-module',
+              'c15.failing-init', 'c15.hanging-first-poll', 'c15.configured-write', 'c15.shutdown-during-read', 'c15.restart', 'c15.attached-to-dynamic-module', 'fault.start-up-write-comfail',
               'c15.unexported-module', 'fault.first-read-comfail')
 
     def gen_case(self, rng, tier):
@@ -57,7 +57,9 @@ class C15(Check):
                          # not exported: invisible for clients, but a module of the node like the others
                          'export': rng.random() > 0.15,
                          # the very first read fails with a communication error (device not yet reachable)
-                         'first_comfail': rng.random() < 0.12})
+                         'first_comfail': rng.random() < 0.12,
+                         # the configured start value cannot be written at the first attempt (communication failure)
+                         'write_comfail': rng.random() < 0.15})
         order = list(range(n))
         rng.shuffle(order)       # topological rank
         for a in range(n):
@@ -231,6 +233,10 @@ class C15(Check):
 
             def write_setp(self, value):
                 rec('write', self.name, 'setp', value)
+                if m.get('write_comfail') and not state.get('wrote'):
+                    state['wrote'] = True
+                    sim.count('fault.start-up-write-comfail')
+                    raise CommunicationFailedError(f'{self.name}: device not reachable yet')
                 return value
 
             def doPoll(self):
@@ -356,7 +362,7 @@ class C15(Check):
             del log[:]
             ctx.pop('shutdown_exc', None)
             for st in all_states:
-                st.update(polled=False, used=set())
+                st.update(polled=False, used=set(), wrote=False)
             srv.restart_hook()
             generation()
 
